@@ -3,8 +3,8 @@
 import json, os, subprocess, sys
 V = os.path.dirname(os.path.abspath(__file__))
 sys.path.insert(0, V)
-from units import UNITS, LEVELS
-from manifest_meta import META, NOT_APPLICABLE, HOOK_COMMITS
+from units import UNITS, LEVELS, META
+from manifest_meta import NOT_APPLICABLE, HOOK_COMMITS
 
 props = [json.loads(l) for l in open(os.path.join(V, "properties.jsonl")) if l.strip()]
 checks = []
